@@ -1,4 +1,5 @@
 import ProfiVerif.Driver.Codec
+import ProfiVerif.Driver.Gsd
 open PV PV.Driver
 
 /-
@@ -11,5 +12,7 @@ def main (args : List String) : IO UInt32 := do
   let out ← IO.getStdout
   match args with
   | ["model", "codec"] => engineLoop (fun (_ : Unit) l => ((), (stepCodec (splitWords l)).getD "bad-op")) () inp out; return 0
+  | ["model", "gsd"] => engineLoop (fun (_ : Unit) l => ((), (stepGsd (splitWords l)).getD "bad-op")) () inp out; return 0
   | ["oracle", "C09", o, i] => oracleLoop (fun (_ : Unit) op obs => ((), oracleC09 op obs)) () o i
+  | ["oracle", "C19", o, i] => oracleLoop (fun (_ : Unit) op obs => ((), oracleC19 op obs)) () o i
   | _ => IO.eprintln "usage: pvdriver model <engine> | oracle <name> <ops> <impl>"; return 2
